@@ -65,6 +65,14 @@ CHECKS = {
         "with quarter-unit jitter on both sides of tile edges, convex lattice polygons in the same and an exact-translation CRS, reconstruction from sample tiles and web tiles z<=5; TLC evaluates the "
         "partition / lookup / exact-query / reconstruction predicates on the logged footprints (integer quarter-unit lattice, exact) and compares tables with the model.",
    ref="5/C14", note=TB + "zero-area contacts between a polygon query and a tile are neither required nor forbidden; cross-CRS queries use the exact tmerc family"),
+ "C20": dict(
+   technique="TLA+ exact-rational transcriptions and contracts of the numeric helpers (MathHelpers) checked by TLC; real return values validated by TLC on exact lattices",
+   text="Each helper has a transcription in exact rational arithmetic and a contract written from its documentation; TLC checks transcription => contract on the whole domain and emits "
+        "the cases; the real functions are executed on the same exactly representable inputs (values on both sides of every tolerance, never on it) and TLC judges the logged results: "
+        "split_float, maybe_int / is_almost_int agreement, snap_scale, align_* and pow2 variants, snap_grid (cover / minimal / aligned), snap_affine (exact snapping, idempotent, rotated untouched), "
+        "decompose_rws (factors multiplied back exactly by TLC, proper rotation, unit shear, diagonal scale), resolution_from_affine, affine_from_pts, affine_from_axis, Bin1D and Poly2d "
+        "fit / evaluation / input-transform composition against exact polynomial evaluation in TLA+.",
+   ref="5/C20", note=TB + "floats off the lattices (1-ulp effects, values exactly at a tolerance) are outside the family; least-squares results are accepted within 1e-5 of the exact lattice value"),
 }
 
 NOT_YET = "check not built yet (work in progress); see DESIGN.md"
